@@ -30,7 +30,7 @@ ASSUMPTIONS = [
     'thread runs atomically in the controlled mode; finer switches are only sampled by the free-running mode',
     'baseline = outcome on a freshly created engine of the same factory, one engine per distinct text',
 ]
-REQUIRED = {'configs.parses': 1000, 'configs.distinct_baseline_behaviours': 4, 'cold.schedules': 100, 'cold.with_switch_inside_first_use': 50, 'sched.schedules': 50, 'sched.with_mid_parse_switch': 20, 'hook.token_points': 200,
+REQUIRED = {'free.new_literal_parses': 2000, 'configs.parses': 1000, 'configs.distinct_baseline_behaviours': 4, 'cold.schedules': 100, 'cold.with_switch_inside_first_use': 50, 'sched.schedules': 50, 'sched.with_mid_parse_switch': 20, 'hook.token_points': 200,
             'history.sequences': 5, 'free.parses': 100, 'reach.YaqlEngine.__call__': 100}
 EXHAUSTIVE = ('all interleavings of the token-fetch sequences of every ordered pair of the short-text pool '
               '(2 threads); thorough adds all 3-thread interleavings of <=3-token texts')
@@ -145,6 +145,9 @@ def plan(tier, seed):
     shards.append({'name': 'free', 'kind': 'free', 'iters': 400 if tier == 'quick' else 6000,
                    'threads': 8, 'timeout': 900})
     shards.append({'name': 'evalcache', 'kind': 'evalcache', 'count': 300 if tier == 'quick' else 3000})
+    for p in range(2 if tier == 'quick' else 6):
+        shards.append({'name': 'free-literals-%d' % p, 'kind': 'free-literals', 'iters': 600 if tier == 'quick' else 4000,
+                       'threads': 8, 'timeout': 1800})
     for p in range(2 if tier == 'quick' else 8):
         shards.append({'name': 'configs-%d' % p, 'kind': 'configs', 'count': 30 if tier == 'quick' else 300})
     for p in range(8 if tier == 'quick' else 16):
@@ -189,6 +192,8 @@ def run_shard(spec, rec):
             _cold(spec, rec, short + long_, base)
         elif kind == 'configs':
             _configs(spec, rec, short + long_)
+        elif kind == 'free-literals':
+            _free_literals(spec, rec)
         rec.count('hook.token_points', tp.count)
     finally:
         tp.close()
@@ -487,6 +492,61 @@ def _configs(spec, rec, pool):
                               {'phase': 'configs', 'texts': [t], 'config': name, 'beside': sorted(engines)})
         if h == 0:
             rec.sample({'phase': 'configs', 'configurations': sorted(CONFIGS), 'creation_order': order})
+
+
+def _free_literals(spec, rec):
+    """free-running threads on one engine that has already parsed thousands of distinct literals, every new text
+    carrying literals no text had before (whatever an engine remembers about literals is bounded and per text)"""
+    rng = rng_for(spec['seed'], 'c01', spec['name'])
+    eng = make_default()
+    ref = make_default()            # never shared: used by this thread only, before the others start
+
+    def text_of(i):
+        k = i % 4
+        if k == 0:
+            return '%d + %d' % (10 ** 6 + i, 2 * 10 ** 6 + i)
+        if k == 1:
+            return "'s%d' + f(%d.5)" % (i, i)
+        if k == 2:
+            return '[%d, "q%d"].len()' % (3 * 10 ** 6 + i, i)
+        return '{k%d => %d}' % (i, 4 * 10 ** 6 + i)
+    warm = 2500
+    for i in range(warm):
+        yq.parse_outcome(eng, text_of(i))
+    nthreads, per = spec['threads'], spec['iters']
+    plans = [[text_of(warm + t * per + j) for j in range(per)] for t in range(nthreads)]
+    want = {t: yq.parse_outcome(ref, t) for p in plans for t in p}
+    old = sys.getswitchinterval()
+    sys.setswitchinterval(1e-6)
+    mismatches = []
+    lock = threading.Lock()
+    start = threading.Barrier(nthreads)
+    done = [0]
+
+    def worker(seq):
+        start.wait()
+        for t in seq:
+            got = yq.parse_outcome(eng, t)
+            if got != want[t]:
+                with lock:
+                    mismatches.append((t, got))
+        with lock:
+            done[0] += len(seq)
+    try:
+        ths = [threading.Thread(target=worker, args=(p,), daemon=True) for p in plans]
+        for t in ths:
+            t.start()
+        for t in ths:
+            t.join(900)
+            if t.is_alive():
+                rec.inconc('free-running (new literals) thread did not finish within its watchdog')
+    finally:
+        sys.setswitchinterval(old)
+    rec.count('free.parses', done[0])
+    rec.count('free.new_literal_parses', done[0])
+    rec.case(('free-literals', spec['seed'], nthreads, per), nontrivial=True, n=done[0])
+    for t, got in mismatches[:30]:
+        _compare(rec, 'free-running-new-literals', t, got, want[t], {'texts': [t], 'threads': nthreads})
 
 
 def _evalcache(spec, rec, pool, base):
